@@ -414,7 +414,8 @@ class RmMemDisp2(Constructor):
         tokens.set_field("x", self.regi.rexbit)
         tokens.set_field("index", self.regi.regbits)
         tokens.set_field("base", self.regb.regbits)
-        tokens.set_field("disp8", self.disp)
+        # Only the form with a sign extended 8 bit displacement exists here
+        tokens.set_field("disp8", self.disp, signed=True)
 
 
 class RmRip(Constructor):
